@@ -108,7 +108,7 @@ def analyse(g, mode, defined=("Foo", "Kind", "Wrap")):
 
 def run_probe(a):
     cli, label, files, mode, meta = a
-    g = proj.generate(cli, files, mode=mode, tag="c02")
+    g = proj.generate(cli, files, mode=mode, config=meta.get("config"), tag="c02")
     try:
         if g.run.timed_out:
             return {"inconclusive": "watchdog"}
@@ -186,11 +186,18 @@ def run(tier):
                         style = rg.DERIVE_STYLES[len(jobs) % len(rg.DERIVE_STYLES)]   # equivalent layouts of the derive attributes
                         jobs.append((cli, "%s/%s/%s" % (site, plabel, kind), site_project(site, t, we, style), mode,
                                      {"site": site, "position": plabel, "kind": kind, "type": t}))
+    # precondition variant: the named type is not defined in the project but covered by a type mapping
+    for (plabel, pf) in positions:
+        t = pf(rg.N("Timestamp"))
+        for site in SITES:
+            for mode in ("none", "zod"):
+                jobs.append((cli, "mapped/%s/%s" % (site, plabel), site_project(site, t), mode,
+                             {"site": site, "position": plabel, "kind": "mapped", "type": t, "config": {"type_mappings": {"Timestamp": "number"}}}))
     for (label, files) in event_projects():
         for mode in ("none", "zod"):
             jobs.append((cli, label, files, mode, {"site": "events", "position": label, "kind": "-", "type": None}))
     # compound: random types over Foo/Kind at random sites
-    ncomp = 150 if tier == "quick" else 2000
+    ncomp = 150 if tier == "quick" else 12000
     for i in range(ncomp):
         src = [HDR, DEFS, rg.command_src("base_cmd", [("w", "Wrap")], "Wrap")]
         for j in range(rnd.randint(2, 5)):
@@ -235,7 +242,7 @@ def run(tier):
             if sig in seen:
                 continue
             seen.add(sig)
-            v.violation(sig, "%s mode, probe %s: %s" % (mode, label, detail), proj.witness_of(files, mode))
+            v.violation(sig, "%s mode, probe %s: %s" % (mode, label, detail), proj.witness_of(files, mode, config=meta.get("config")))
     rule = ("a case is one generated project (custom struct/enum at a structural position of a translation site, or an event layout, "
             "or a random compound) in one mode; non-trivial = the custom type is below at least one constructor; every reference in "
             "every module is resolved (counter references_resolved)")
